@@ -2,8 +2,10 @@
 import glob, json, os
 import vlib
 
-TARGETS = ["Base/Num.vo", "Base/Corr.vo", "C07/Model.vo", "C07/ModelNewton.vo", "C07/Corr.vo", "C07/Spec.vo", "C07/SpecNewton.vo",
-           "C07/ProofsNewton.vo", "C07/ExamplesNewton.vo", "C07/ProofsQuad.vo", "C07/ProofsBase.vo",
+TARGETS = ["Base/Num.vo", "Base/Corr.vo", "C07/Model.vo", "C07/ModelNewton.vo", "C07/ModelNewtonMin.vo", "C07/Corr.vo", "C07/Spec.vo",
+           "C07/SpecNewton.vo", "C07/SpecNewtonMin.vo", "C07/ProofsNewton.vo", "C07/ProofsNewtonMin.vo", "C07/ExamplesNewton.vo",
+           "C07/ExamplesNewtonMin.vo", "C07/ModelSaga.vo", "C07/SpecSaga.vo", "C07/ProofsSaga.vo", "C07/ExamplesSaga.vo", "C07/ModelBlahut.vo", "C07/ProofsBlahut.vo",
+           "C07/ProofsQuad.vo", "C07/ProofsBase.vo",
            "C07/ProofsRprop.vo", "C07/ProofsGD.vo", "C07/ProofsLS.vo", "C07/ProofsBfgs.vo", "C07/ProofsDense.vo", "C07/ProofsAdam.vo",
            "C07/Proofs.vo", "C07/Refuted.vo", "C07/Props.vo"]
 PROPS = ["C07/Props.v"]
@@ -24,6 +26,8 @@ def known_sites():
         m = f.get("match", {})
         if m.get("site"):
             out[m["site"]] = f
+        for st in m.get("sites", []):
+            out[st] = f
     # proposed entries travel with the property until the integrator merges them
     p = os.path.join(vlib.ROOT, "corpus/C07/known_findings_proposed.json")
     if os.path.exists(p):
@@ -31,6 +35,8 @@ def known_sites():
             m = f.get("match", {})
             if m.get("site"):
                 out.setdefault(m["site"], f)
+            for st in m.get("sites", []):
+                out.setdefault(st, f)
     return out
 
 
@@ -40,6 +46,8 @@ def is_known(finding, known):
         return None
     m = f.get("match", {})
     if m.get("routine") and finding["spec"].get("routine") != m["routine"]:
+        return None
+    if m.get("routine_prefix") and not str(finding["spec"].get("routine", "")).startswith(m["routine_prefix"]):
         return None
     if m.get("requires_constraints") and not finding["spec"].get("cons"):
         return None
